@@ -12,8 +12,11 @@ MANIFEST = dict(
     design='6/C03')
 
 DF_NONE = "(DFlags false false)"
+COQ_HEAD_STMT = ("From Coq Require Import List String NArith ZArith.\n"
+                 "From GV Require Import Spec.RefGrammar Spec.RefStmt Model.Expr Model.ExprParse Model.StmtParse.\n"
+                 "Import ListNotations.\nLocal Open Scope string_scope.\n")
 COQ_HEAD = ("From Coq Require Import List String NArith ZArith.\n"
-            "From GV Require Import Spec.RefGrammar Spec.RefStmt Model.Expr Model.ExprParse Model.StmtParse.\n"
+            "From GV Require Import Spec.RefGrammar Model.Expr Model.ExprParse.\n"
             "Import ListNotations.\nLocal Open Scope string_scope.\n")
 
 
@@ -38,24 +41,24 @@ def vh_lines(sub, objs, timeout=1200):
     return outs
 
 
-def coq_eval(name, decls, value, timeout=900):
+def coq_eval(name, decls, value, timeout=900, head=None):
     """evaluate `value : list N` by vm_compute; returns list of ints or raises"""
-    body = COQ_HEAD + decls + "\nDefinition results := Eval vm_compute in (%s).\nPrint results.\n" % value
+    body = (head or COQ_HEAD) + decls + "\nDefinition results := Eval vm_compute in (%s).\nPrint results.\n" % value
     ok, out, err = common.coq_cases(name, body, timeout=timeout)
     if not ok:
         raise RuntimeError("coq case file %s failed: %s" % (name, err[-1500:]))
     return common.parse_nlist(out)
 
 
-def coq_eval_shards(name, items, mk_case, fn, shard=400, decl_type=None):
+def coq_eval_shards(name, items, mk_case, fn, shard=400, decl_type=None, head=None):
     """items -> Coq case terms; evaluate `map fn cases` in shards (parallel)"""
     shards = [items[i:i + shard] for i in range(0, len(items), shard)]
     def one(ix):
         terms = [mk_case(x) for x in shards[ix]]
         decls = "Definition cases%s := [\n  %s].\n" % ("" if decl_type is None else " : " + decl_type, ";\n  ".join(terms))
-        return coq_eval("%s_%d" % (name, ix), decls, "map (%s) cases" % fn)
+        return coq_eval("%s_%d" % (name, ix), decls, "map (%s) cases" % fn, head=head)
     res = []
-    with concurrent.futures.ThreadPoolExecutor(max_workers=8) as ex:
+    with concurrent.futures.ThreadPoolExecutor(max_workers=12) as ex:
         for r in ex.map(one, range(len(shards))):
             res += r
     return res
@@ -193,12 +196,12 @@ def correspondence_cases(rng, tier, cases):
     sample = [c for c in cases if c["kind"] != "pair"]
     pairs = [c for c in cases if c["kind"] == "pair"]
     rng.shuffle(pairs)
-    n_pair = 300 if tier == "quick" else 3000
-    n_rand = 250 if tier == "quick" else 2500
+    n_pair = 250 if tier == "quick" else 3000
+    n_rand = 200 if tier == "quick" else 2500
     chosen = pairs[:n_pair] + sample[:n_rand]
     for c in chosen:
         texts.append(("ref:" + c["id"], c["sql"], 0))
-    n_cor = 500 if tier == "quick" else 5000
+    n_cor = 400 if tier == "quick" else 5000
     src = [c for c in cases if G.size(c["e"]) <= 25]
     for i in range(n_cor):
         c = src[rng.randrange(len(src))]
@@ -260,7 +263,7 @@ def run_generator_crosscheck(rp, tier, rng, cases):
     """Spec/RefGrammar.render, pdepth, ref_expr and Model/Expr.ast_of agree with the Python generator"""
     sample = [c for c in cases if G.is_core(c["e"])]
     rng.shuffle(sample)
-    sample = sample[:400 if tier == "quick" else 3000]
+    sample = sample[:300 if tier == "quick" else 3000]
     def mk_r(c):
         return "(%s, %s, %s, %d)" % (G.coq_mexpr(c["e"]), G.coq_rho(c["rho"]), G.coq_toks(c["toks"]), G.pdepth(0, c["e"], c["rho"]))
     r1 = coq_eval_shards("c03_render", sample, mk_r, "fun c => if render_case_ok c then 0%N else 1%N", shard=300)
@@ -319,7 +322,7 @@ def run_statements_coq(rp, tier, rng):
     gen = S.CoreStmtGen(rng)
     pres = G.StmtPrescriber()
     ref = []
-    for i in range(450 if quick else 5000):
+    for i in range(320 if quick else 5000):
         s = gen.statement()
         rd = S.LoggingRenderer(rng, rng.choice([0.0, 0.1, 0.25]))
         try:
@@ -332,7 +335,7 @@ def run_statements_coq(rp, tier, rng):
         ref.append(dict(id="sref:%d" % i, s=s, words=words, sql=" ".join(words), term=conv[0], srho=conv[1], want=pres.ast(s), feats=G.features(s)))
     wide_gen = G.StmtGen(rng)
     wide = []
-    for i in range(300 if quick else 3000):
+    for i in range(200 if quick else 3000):
         st = wide_gen.statement()
         try:
             words = G.StmtRenderer(rng, 0.1).S(st)
@@ -341,7 +344,7 @@ def run_statements_coq(rp, tier, rng):
         wide.append(dict(id="swide:%d" % i, words=words, sql=" ".join(words)))
     other = []
     src = ref + wide
-    for i in range(500 if quick else 6000):
+    for i in range(330 if quick else 6000):
         c = src[rng.randrange(len(src))]
         w = list(c["words"])
         if len(w) > 60:
@@ -349,7 +352,7 @@ def run_statements_coq(rp, tier, rng):
         for _ in range(rng.choice([1, 1, 2, 3])):
             w = G.corrupt(rng, w) if rng.random() < 0.5 else S.corrupt_stmt(rng, w)
         other.append(dict(id="scorrupt:%d" % i, sql=" ".join(w)))
-    for i in range(100 if quick else 1000):
+    for i in range(60 if quick else 1000):
         other.append(dict(id="ssoup:%d" % i, sql=" ".join(rng.choice(S.STMT_JUNK) for _ in range(rng.randrange(1, 10)))))
     for i, sql in enumerate(S.FIXED_TEXTS):
         other.append(dict(id="sfixed:%d" % i, sql=sql))
@@ -362,9 +365,9 @@ def run_statements_coq(rp, tier, rng):
     # tie (c): Spec/RefStmt.v render_stmt / ast_of_stmt = generator
     refu = [c for c in ref if usable(c["out"])]
     r1 = coq_eval_shards("c03_srender", refu, lambda c: "(%s, %s, %s)" % (c["term"], c["srho"], coq_toks(c["out"])[:-len('; Tk TyEOF ""]')] + "]"),
-                         "fun c => if stmt_render_case_ok c then 0%N else 1%N", shard=150)
+                         "fun c => if stmt_render_case_ok c then 0%N else 1%N", shard=150, head=COQ_HEAD_STMT)
     r2 = coq_eval_shards("c03_sspec", refu, lambda c: "(%s, %s)" % (c["term"], G.coq_sx(c["want"])),
-                         "fun c => if stmt_spec_case_ok c then 0%N else 1%N", shard=150)
+                         "fun c => if stmt_spec_case_ok c then 0%N else 1%N", shard=150, head=COQ_HEAD_STMT)
     gen_bad = [c for c, a, b in zip(refu, r1, r2) if a or b]
     # tie (a): Model/StmtParse.v = parseStatement
     items = [c for c in allc if usable(c["out"])]
@@ -374,8 +377,8 @@ def run_statements_coq(rp, tier, rng):
             return "(%s, None)" % coq_toks(o)
         exp = "Some (%s, %d)" % (G.coq_sx(o["tree"]), min(o["pos"], len(o["tokens"]))) if o["accepted"] else "None"
         return "(%s, %s)" % (coq_toks(o), exp)
-    res = coq_eval_shards("c03_scorr", items, mk, "stmt_case_result tree_flags", shard=120,
-                          decl_type="list (list token * option (sx * nat))")
+    res = coq_eval_shards("c03_scorr", items, mk, "stmt_case_result tree_flags", shard=70,
+                          decl_type="list (list token * option (sx * nat))", head=COQ_HEAD_STMT)
     bad = [(c, r) for c, r in zip(items, res) if r == 1 or c["out"].get("panic")]
     ref_ids = {c["id"] for c in ref}
     ref_unmodelled = [c for c, r in zip(items, res) if r == 2 and c["id"] in ref_ids]
@@ -441,6 +444,8 @@ def run(tier):
     rp = Report("C03", tier)
     rng = random.Random(common.seed())
     kf = common.known_findings("C03")
+    import time as _t
+    _start = _t.time()
     try:
         with common.Lock():
             common.stage_harness()
@@ -458,13 +463,20 @@ def run(tier):
     rp.assumptions = ["lexing (text -> tokens) is C04's theorem; per run the real tokenizer+converter output is compared with the renderer's token list",
                       "the theorems cover the reference grammars of Spec/RefGrammar.v and Spec/RefStmt.v (see Props/C03.v for the omitted clauses); the rest of the documented surface is covered by correspondence and the prescribed-tree oracle only",
                       "model case folding is ASCII-only (Go uses Unicode simple folding for EqualFold/ToUpper on keyword-like literals)"]
+    import time
+    phase, t0 = {}, _start
+    def lap(name):
+        nonlocal t0
+        phase[name] = round(time.time() - t0, 1); t0 = time.time()
+    lap("coq_stage")
     try:
-        cases, viol, tokbad = run_expressions(rp, tier, rng, kf)
-        items, corr_bad, depth_bad = run_correspondence(rp, tier, rng, cases)
-        gen_bad = run_generator_crosscheck(rp, tier, rng, cases)
-        scases, sviol = run_statements(rp, tier, rng)
-        sc = run_statements_coq(rp, tier, rng)
-        run_known(rp, kf)
+        cases, viol, tokbad = run_expressions(rp, tier, rng, kf); lap("expr_oracle")
+        items, corr_bad, depth_bad = run_correspondence(rp, tier, rng, cases); lap("expr_tie")
+        gen_bad = run_generator_crosscheck(rp, tier, rng, cases); lap("expr_crosscheck")
+        scases, sviol = run_statements(rp, tier, rng); lap("stmt_oracle")
+        sc = run_statements_coq(rp, tier, rng); lap("stmt_coq")
+        run_known(rp, kf); lap("known")
+        rp.cov["phase_seconds"] = phase
     except common.StageError as e:
         return common.stage_fail(rp, e)
     rp.obligation("oracle(b): real parseExpression = prescribed tree on all generated reference expressions", not viol, "%d failures" % len(viol))
